@@ -157,6 +157,8 @@ struct Net {
     world: Rc<World>,
     /// per-server round-trip time in milliseconds is `latency_ms * (server index % 3)`
     latency_ms: u64,
+    /// see `NetCase::ttl_mode`
+    ttl_mode: u8,
     st: RefCell<NetState>,
 }
 
@@ -173,9 +175,16 @@ impl Net {
             Rcode::Refused => ResponseCode::Refused,
             Rcode::ServFail => ResponseCode::ServFail,
         };
-        m.add_answers(resp.answers.iter().map(record_of));
-        m.add_authorities(resp.authority.iter().map(record_of));
-        m.add_additionals(resp.additional.iter().map(record_of));
+        let rec_of = |r: &Rr| {
+            let mut rec = record_of(r);
+            if self.ttl_mode == 2 || (self.ttl_mode == 1 && matches!(r.rd, Rd::Ns(_))) {
+                rec.ttl = 0;
+            }
+            rec
+        };
+        m.add_answers(resp.answers.iter().map(rec_of));
+        m.add_authorities(resp.authority.iter().map(rec_of));
+        m.add_additionals(resp.additional.iter().map(rec_of));
         m.to_vec().expect("model responses encode")
     }
 }
@@ -596,6 +605,7 @@ fn scenario(c: &NetCase, world: Rc<World>, rec: &mut Rec) -> CaseResult {
     let net = Rc::new(Net {
         world: world.clone(),
         latency_ms: c.latency_ms as u64,
+        ttl_mode: c.ttl_mode,
         st: RefCell::new(NetState::default()),
     });
     sim.set_net(net.clone());
@@ -878,6 +888,17 @@ fn scenario(c: &NetCase, world: Rc<World>, rec: &mut Rec) -> CaseResult {
         }
     }
     rec.class(format!("zones:{}", w.zones.len()));
+    if std::env::var_os("C19_PRINT_DGRAMS").is_some() {
+        eprintln!("C19_PRINT_DGRAMS ns_recursion_limit={} recursion_limit={} ttl_mode={} max_datagrams_per_resolve={max_dgrams}", cfg.ns_recursion_limit, cfg.recursion_limit, c.ttl_mode);
+    }
+    rec.class(match c.ttl_mode {
+        0 => "ttl:3600",
+        1 => "ttl:ns-records-0",
+        _ => "ttl:all-0",
+    });
+    if c.ttl_mode != 0 {
+        rec.class(format!("ttl0-max-datagrams:{}", match max_dgrams { 0..=16 => "<=16", 17..=64 => "<=64", 65..=256 => "<=256", 257..=1024 => "<=1024", _ => ">1024" }));
+    }
     let bucket = match max_dgrams {
         0..=4 => "<=4",
         5..=16 => "<=16",
@@ -1146,6 +1167,7 @@ pub fn expiry_body(c: &ExpiryCase, rec: &mut Rec) -> CaseResult {
     let net = Rc::new(Net {
         world: world.clone(),
         latency_ms: c.base.latency_ms as u64,
+        ttl_mode: 0,
         st: RefCell::new(NetState::default()),
     });
     sim.set_net(net.clone());
@@ -1257,7 +1279,7 @@ pub fn check() -> Option<Check> {
     Some(Check {
         id: "C19",
         level: "exploration",
-        rule: "recursor: random simulated internets (root + <=3 zone levels, <=2 NS per zone, NS host names in the zone / its parent / any other zone, glue or not, lame / dead / refusing / SERVFAIL servers, CNAME chains of 1..20 names and loops, in 1 world of 13 an alias tree (2-3 CNAME records per owner, 3-5 levels, up to 364 names), optional server-side CNAME chasing, reply latency 0/7/150 ms steps) served over UDP by a reference authoritative model (RFC 1034 4.3.2) to the real Recursor on a discrete-event runtime; hostile servers append marked records whose owners lie outside every zone delegated to them (A for a victim name, NS+glue for a victim zone or the root, NS pointing at an attacker host, CNAME at a victim name, address for a victim zone's NS host) to the answer / authority / additional section of all, referral, positive or negative responses; recursion_limit and ns_recursion_limit in {2..6, 12, 24}; optional deny/allow lists for servers and answers; 1-4 queries (A/AAAA/NS/CNAME/TXT; every third one asked twice at the same instant so that the second resolution joins the first one's in-flight requests, both results judged) then up to 8 follow-up queries for the victims on the same Recursor. Counted non-trivial when distinct and a poison record was actually delivered to the recursor, or the graph has a glueless / self-referential / cyclic delegation, a lame or dead server, or a CNAME loop. stub_alias: CachingClient over scripted CNAME/SRV alias graphs (chains 1..20, loops, 1..20 alias records per response); non-trivial = at least one alias hop.",
+        rule: "recursor: random simulated internets (root + <=3 zone levels, <=2 NS per zone, NS host names in the zone / its parent / any other zone, glue or not, lame / dead / refusing / SERVFAIL servers, CNAME chains of 1..20 names and loops, in 1 world of 13 an alias tree (2-3 CNAME records per owner, 3-5 levels, up to 364 names), optional server-side CNAME chasing, record TTLs 3600 s / NS records 0 / everything 0 (1 world in 6: nothing can be taken from a cache twice), reply latency 0/7/150 ms steps) served over UDP by a reference authoritative model (RFC 1034 4.3.2) to the real Recursor on a discrete-event runtime; hostile servers append marked records whose owners lie outside every zone delegated to them (A for a victim name, NS+glue for a victim zone or the root, NS pointing at an attacker host, CNAME at a victim name, address for a victim zone's NS host) to the answer / authority / additional section of all, referral, positive or negative responses; recursion_limit and ns_recursion_limit in {2..6, 12, 24}; optional deny/allow lists for servers and answers; 1-4 queries (A/AAAA/NS/CNAME/TXT; every third one asked twice at the same instant so that the second resolution joins the first one's in-flight requests, both results judged) then up to 8 follow-up queries for the victims on the same Recursor. Counted non-trivial when distinct and a poison record was actually delivered to the recursor, or the graph has a glueless / self-referential / cyclic delegation, a lame or dead server, or a CNAME loop. stub_alias: CachingClient over scripted CNAME/SRV alias graphs (chains 1..20, loops, 1..20 alias records per response); non-trivial = at least one alias hop.",
         assumptions: vec![
             "alias trees (several CNAME records per owner): the recursor's own cap of 64 alias lookups per client query (recursor/handle.rs: 'regardless of the recursion depth limit') is taken as the bound; a change of that constant upstream needs the number 64 in this check changed with it",
             "DNSSEC validation off (SecurityUnaware); UDP only (responses are small, no truncation, so TCP is never needed)",
